@@ -40,6 +40,10 @@ type rmodel struct {
 	served   int
 	paused   bool
 	grace    map[int]bool // pieces evicted while this remote was not reading
+	// a request cancelled (no fast extension: no acknowledgement) in the step
+	// being processed: storrent's upload tick and its reading of the Cancel may
+	// fall at the same instant, in either order, so a Piece may cross the Cancel
+	crossing []req
 }
 
 type step struct {
@@ -57,7 +61,8 @@ func (s step) String() string {
 }
 
 var kinds = []string{"interested", "interested", "notinterested", "request", "request", "request", "request", "request-odd", "request-dup",
-	"flood", "cancel", "cancel-unknown", "t.unchoke", "t.unchoke", "t.unchoke", "t.choke", "evict", "verify", "pause", "unpause", "close", "sleep", "sleep", "sleep"}
+	"flood", "cancel", "cancel-unknown", "t.unchoke", "t.unchoke", "t.unchoke", "t.choke", "evict", "verify", "pause", "unpause", "close", "sleep", "sleep", "sleep",
+	"t.interested", "congested-choke"}
 
 type store struct {
 	ps       *piece.Pieces
@@ -199,6 +204,17 @@ func run(c caseSpec) (fail string, labels map[string]bool, hist []string) {
 						}
 					}
 					if found < 0 {
+						for k, r := range m.crossing {
+							if r.i == msg.Index && r.b == msg.Begin && int(r.l) == len(msg.Data) {
+								m.crossing = append(m.crossing[:k], m.crossing[k+1:]...)
+								m.pending = append(m.pending, r)
+								found = len(m.pending) - 1
+								labels["piece-crossed-cancel"] = true
+								break
+							}
+						}
+					}
+					if found < 0 {
 						return fmt.Sprintf("peer %d: Piece(%d,%d,%d bytes) does not answer any pending request (pending %v)", pi, msg.Index, msg.Begin, len(msg.Data), m.pending) + describe()
 					}
 					if m.pending[found].afterChoke {
@@ -237,7 +253,7 @@ func run(c caseSpec) (fail string, labels map[string]bool, hist []string) {
 						}
 					}
 					if found < 0 {
-						return fmt.Sprintf("peer %d: Reject(%d,%d,%d) does not refer to a pending request", pi, msg.Index, msg.Begin, msg.Length) + describe()
+						return fmt.Sprintf("peer %d: Reject(%d,%d,%d) does not refer to a pending request (model pending %v; storrent's upload queue %v)", pi, msg.Index, msg.Begin, msg.Length, m.pending, peer.VerifUploadQueue(m.a.P)) + describe()
 					}
 					m.pending = append(m.pending[:found], m.pending[found+1:]...)
 					labels["reject"] = true
@@ -246,6 +262,7 @@ func run(c caseSpec) (fail string, labels map[string]bool, hist []string) {
 			if m.open && m.a.R.Closed() {
 				m.open = false
 			}
+			m.crossing = nil
 		}
 		// accounting (only when every remote is reading: a choke-state message
 		// still sitting in a congested pipe is not yet visible to the remote)
@@ -362,6 +379,9 @@ func run(c caseSpec) (fail string, labels map[string]bool, hist []string) {
 				if !m.fast {
 					// without fast there is no acknowledgement: the request is simply gone
 					m.pending = append(m.pending[:k], m.pending[k+1:]...)
+					if !r.afterChoke && !r.uncertain {
+						m.crossing = append(m.crossing, r)
+					}
 				} else {
 					// with fast storrent answers a cancel with a reject; a Piece that
 					// was already written may still precede it
@@ -370,6 +390,41 @@ func run(c caseSpec) (fail string, labels map[string]bool, hist []string) {
 			}
 		case "cancel-unknown":
 			m.a.R.Send(ref.Msg{Kind: ref.KCancel, Index: uint32(i), Begin: 0, Length: 77})
+		case "t.interested":
+			m.a.Cmd(peer.PeerInterested{Interested: s.A%3 != 0})
+		case "congested-choke":
+			// the remote stops reading, makes storrent fill its outgoing queue
+			// (every change of the advertised set draws an interested /
+			// not-interested reply), and then says it is no longer interested:
+			// the Choke that follows cannot be written
+			if !m.unchoked || !m.a.Alive() {
+				continue
+			}
+			m.a.Cmd(peer.PeerInterested{Interested: true})
+			if !m.paused {
+				m.a.R.Pause(true)
+				m.paused = true
+			}
+			full := make([]byte, (st.n+7)/8)
+			for k := 0; k < st.n; k++ {
+				full[k/8] |= 0x80 >> (k % 8)
+			}
+			empty := make([]byte, (st.n+7)/8)
+			var raw []byte
+			// how full the queue gets decides whether the Choke, or only some of
+			// the rejects that follow it, cannot be written
+			for k := 0; k < 30+s.I%70; k++ {
+				bf := full
+				if k%2 == 1 {
+					bf = empty
+				}
+				raw = append(raw, ref.Encode(ref.Msg{Kind: ref.KBitfield, Data: bf})...)
+			}
+			m.a.R.SendRaw(raw)
+			sim.Settle()
+			m.a.R.Send(ref.Msg{Kind: ref.KNotInt})
+			labels["congested-choke"] = true
+			labels["congestion"] = true
 		case "t.unchoke":
 			m.a.Cmd(peer.PeerUnchoke{Unchoke: true})
 			labels["unchoke-cmd"] = true
@@ -486,5 +541,25 @@ func TestReg_c16_upload_queue_unbounded(t *testing.T) {
 	}
 	if leak != "" {
 		t.Fatalf("leak: %s", leak)
+	}
+}
+
+// a choke whose Choke message is written but whose rejects no longer fit into
+// the congested outgoing queue left the whole upload queue in place: after the
+// next unchoke those requests, choked away (and partly rejected) long ago,
+// were answered a second time
+func TestReg_c16_choke_keeps_queue_when_reject_fails(t *testing.T) {
+	for storm := 0; storm < 70; storm++ {
+		c := caseSpec{psK: 16, n: 2, tail: 1, seed: 1, npeers: 1, fast: []bool{true}, initial: []int{1},
+			steps: []step{{Kind: "interested"}, {Kind: "t.unchoke"}, {Kind: "flood", I: 0, A: 127}, {Kind: "congested-choke", I: storm}, {Kind: "unpause"},
+				{Kind: "sleep", D: time.Second}, {Kind: "interested"}, {Kind: "t.unchoke"}, {Kind: "sleep", D: 3 * time.Second}, {Kind: "notinterested"}, {Kind: "sleep", D: time.Second}}}
+		var fail string
+		leak := sim.Bubble(t, func() { fail, _, _ = run(c) })
+		if fail != "" {
+			t.Fatalf("storm of %d: %s", 30+storm, fail)
+		}
+		if leak != "" {
+			t.Fatalf("leak: %s", leak)
+		}
 	}
 }
